@@ -306,8 +306,15 @@ def may_overlap(p, ptype, m, mtype):
     objects of different struct field / scalar type do not alias."""
     if distinct_paths(p, m):
         return False
-    if is_prefix(p, m) or is_prefix(m, p):
+    if is_prefix(p, m):
         return True
+    if is_prefix(m, p):
+        # a write below m changes m's value unless it goes through a pointer
+        # stored in m (the pointee is not part of m)
+        rest = p[len(m):]
+        if not (rest and (rest[0][0] == "d" or (rest[0][0] == "i" and rest[0][2]))):
+            return True
+        return False
     if p[0][2] == m[0][2] and not through_pointer(p) and not through_pointer(m):
         return False          # same object, neither is a prefix of the other
     # type based
